@@ -733,13 +733,22 @@ Fixpoint get_matches_with (fuel : nat) (c : cmd) (toks : list bytes) (st0 : ps) 
     | RPanic s => RPanic s
     | RErr e st =>
         if is_set s_ignore_errors c then
-          (* let _ = add_env; let _ = add_defaults; then the error is returned *)
-          let st1 := match add_env c st with ROk s => s | RErr _ s => s | RPanic _ => st end in
+          (* let _ = resolve_pending; let _ = add_env; let _ = add_defaults; then the error is returned.
+             (repaired: the occurrence that was still being collected when the error was raised is stored
+             first -- without it [add_default_value] saw the argument as absent and [react] appended the
+             default to the flushed command-line entry; the pre-repair function is kept as
+             [ParseProofs/PendingFlush.get_matches_with_before_fix]) *)
+          let st0 := match resolve_pending c st with ROk s => s | RErr _ s => s | RPanic _ => st end in
+          let st1 := match add_env c st0 with ROk s => s | RErr _ s => s | RPanic _ => st0 end in
           let st2 := match add_defaults c st1 with ROk s => s | RErr _ s => s | RPanic _ => st1 end in
-          match add_env c st, add_defaults c st1 with
-          | RPanic s, _ => RPanic s
-          | _, RPanic s => RPanic s
-          | _, _ => RErr e st2
+          match resolve_pending c st with
+          | RPanic s => RPanic s
+          | _ =>
+            match add_env c st0, add_defaults c st1 with
+            | RPanic s, _ => RPanic s
+            | _, RPanic s => RPanic s
+            | _, _ => RErr e st2
+            end
           end
         else RErr e st
     | ROk st =>
